@@ -33,6 +33,12 @@
 #endif
 #include "c04_builder.h"
 #include "ext_seam.h"
+/* secondary witness points are only compiled in the thorough tier (-DWITNESS_ALL): every witness costs a solver call plus a full trace */
+#ifdef WITNESS_ALL
+#define WITNESS_EXTRA(msg) WITNESS_POINT(msg)
+#else
+#define WITNESS_EXTRA(msg) ((void)0)
+#endif
 #ifndef PARTS
 #define PARTS 7          /* 1 presence + certificate existence, 2 validity, 4 PKI signature */
 #endif
@@ -133,12 +139,12 @@ void harness(void) {
 	else if (n_match == 1) {
 		if (C4.cert[first].notBefore <= t && t <= C4.cert[first].notAfter) {
 			CHECK(IS_OK(res, r), "C04.Hkey certificate valid at the aggregation time (bounds inclusive): OK");
-			if (t == C4.cert[first].notBefore && t != C4.cert[first].notAfter) WITNESS_POINT("aggregation time equals notBefore");
+			if (t == C4.cert[first].notBefore && t != C4.cert[first].notAfter) WITNESS_EXTRA("aggregation time equals notBefore");
 			if (t == C4.cert[first].notAfter && t != C4.cert[first].notBefore) WITNESS_POINT("aggregation time equals notAfter");
 		} else {
 			CHECK(IS(res, r, KSI_VER_RES_FAIL, KSI_VER_ERR_KEY_3), "C04.Hkey certificate not valid at the aggregation time: FAIL KEY-03");
 			if (t + 1 == C4.cert[first].notBefore) WITNESS_POINT("one second before notBefore");
-			if (t == C4.cert[first].notAfter + 1 && t != 0) WITNESS_POINT("one second after notAfter");
+			if (t == C4.cert[first].notAfter + 1 && t != 0) WITNESS_EXTRA("one second after notAfter");
 		}
 	}
 #endif
@@ -173,7 +179,7 @@ void harness(void) {
 	}
 #endif
 #if !C04_PF_USER
-	if (usable && fatal(fetch)) WITNESS_POINT("fatal download failure");
+	if (usable && fatal(fetch)) WITNESS_EXTRA("fatal download failure");
 	if (usable && fetch != KSI_OK && !fatal(fetch)) WITNESS_POINT("publications file unavailable");
 #endif
 }
